@@ -62,6 +62,28 @@ def _facts(cs):
     return fs
 
 
+def _fold_tables_ok(fn, k, valid_form):
+    from facts import walk, peel
+    cls = [x for x in walk(k.closure['ch'][0]) if x.get('k') == 'Closure' and len(x.get('params', [])) == 2]
+    if not cls:
+        return False
+    for cl in cls:
+        t = dtree.closure_table(fn.hir, cl, N.self_env(fn))
+        rows = {(frozenset(cs), l[7:] if l.startswith('return ') else l, tuple(ef)) for cs, l, ef in t}
+        ok = False
+        for a in 'abc':
+            acc, v, w = a + '0', a + '1', a + '2'
+            val = '((%s * %s) + %s)' % (v, w, acc)
+            if valid_form:
+                want = {(frozenset({'VALID(%s)' % v}), val, ()), (frozenset({'!VALID(%s)' % v}), acc, ())}
+            else:
+                want = {(frozenset(), val, ())}
+            ok = ok or rows == want
+        if not ok:
+            return False
+    return True
+
+
 def check(run, F):
     for r, t in RULES.items():
         run.rule(r, t)
@@ -120,6 +142,11 @@ def check(run, F):
                        'values `%s`; window proved null-free on this path: %s' % (X, all_valid))
             wantf = '|b0, b1, b2| if VALID(b1) { ((b1 * b2) + b0) } else { b0 }' if valid_form else \
                 '|b0, b1, b2| ((b1 * b2) + b0)'
-            run.ob('FDIFF.fold', fn, key, f == wantf, fn.loc(), 'fold `%s`' % f)
+            okf = f == wantf
+            if not okf:
+                # any spelling of the fold function (negated test, early `return acc`, `pair.0 / .1`):
+                # its decision table is `valid -> acc + v * w`, `null -> acc`
+                okf = _fold_tables_ok(fn, k, valid_form)
+            run.ob('FDIFF.fold', fn, key, okf, fn.loc(), 'fold `%s`' % f)
         run.floor('FDIFF.align', 'fold paths in %s' % k.name, folds, 2 if valid_form else 1)
     return n
